@@ -253,4 +253,25 @@ __CPROVER_loop_invariant(__begin0.c == values && __end0.c == values && __end0.i 
   && ((nv_k < __begin0.i) ==> (int64_t)values->kcell == nv_kval) \
   && nv_nfields == NV_LF0 + __begin0.i) \
 __CPROVER_decreases(__end0.i - __begin0.i)
+
+/* ---- write(stream, std::string_view): uint32 length then the characters (the counterpart of read(string)): success => two
+ * fields (4 bytes holding the length, then `length` bytes from data()), position advanced by 4 + length.
+ * Stated precondition: the length fits the uint32 it is stored in (a string of 4 GiB or more would be truncated). */
+struct nv_sv { const char* p; uint64_t n; };
+#define NV_CONTRACT_write_ptr_char NV_WRITE_PTR_U(1)
+#define NV_WRITE_PTR_U(W) \
+__CPROVER_requires(NV_OS_OK(stream) && count <= NV_MAXCOUNT && (count == 0 || __CPROVER_is_fresh(data, W * count))) \
+__CPROVER_assigns(stream->pos, stream->fail, nv_gh) \
+__CPROVER_ensures(__CPROVER_return_value == stream) \
+__CPROVER_ensures(__CPROVER_old(stream->fail) ==> stream->fail) \
+__CPROVER_ensures(stream->fail ? stream->pos == NV_OP0 : stream->pos == NV_OP0 + W * (int64_t)count) \
+__CPROVER_ensures(nv_nfields == __CPROVER_old(nv_nfields) + 1 && (__CPROVER_old(nv_nfields) == nv_g ==> (nv_f_off == NV_OP0 && nv_f_w == W * (int64_t)count)))
+#define NV_CONTRACT_write_string \
+__CPROVER_requires(NV_OS_OK(stream) && __CPROVER_is_fresh(string, sizeof(struct nv_sv)) && string->n <= 0xffffffffULL && (string->n == 0 || __CPROVER_is_fresh(string->p, string->n)) && nv_nfields == 0) \
+__CPROVER_assigns(stream->pos, stream->fail, nv_gh) \
+__CPROVER_ensures(__CPROVER_return_value == stream) \
+__CPROVER_ensures(__CPROVER_old(stream->fail) ==> stream->fail) \
+__CPROVER_ensures(!stream->fail ==> (stream->pos == NV_OP0 + 4 + (int64_t)string->n && nv_nfields == 2)) \
+__CPROVER_ensures((!stream->fail && nv_g == 0) ==> (nv_f_off == NV_OP0 && nv_f_w == 4 && nv_f_val == string->n)) \
+__CPROVER_ensures((!stream->fail && nv_g == 1) ==> (nv_f_off == NV_OP0 + 4 && nv_f_w == (int64_t)string->n))
 #endif
